@@ -1,7 +1,7 @@
 """C05 — shipped rewrite rules preserve semantics wherever they fire."""
 MODULES = ["contracts.c05_rules", "contracts.c05_batchnorm", "contracts.c05_basic", "contracts.c05_casts", "contracts.c09_reshape", "contracts.c06_matcher:match_constant", "contracts.c05_conv", "contracts.c05_gemm", "contracts.c05_matmul_reshape",
            # helpers the rule conditions rest on (anchors: _ir_utils.same_shape / same_dim; _pattern_ir Constant incl. its commuted clones)
-           "contracts.c09_expand:C09.ir_utils", "contracts.c06_matcher:pattern_ir.clone"]
+           "contracts.c09_expand:C09.ir_utils", "contracts.c06_matcher:pattern_ir.clone", "contracts.c05_irutils"]
 HEAD = "import sys\nsys.path.insert(0, '/verif')\nfrom replay_lib.opt_native import main\n"
 EVIDENCE_EXTRA = {"rules_not_under_contract": "all rules except _fuse_relus_clips (4), _min_max_to_clip (4), _no_op (pattern constants), _remove_expand_before_binary_op, _basic_rules.TransposeTranspose, _fuse_batchnorm (Conv, Gemm); rules.fusion and _fuse_hardswish replace subgraphs by compound operators whose only definition is a function body or an ORT kernel"}
 
